@@ -323,6 +323,11 @@ func visit(sh *triex.Shard, v *triex.Visit) {
 		if o.Multi || !t.ASCII {
 			masks = append(masks, '＊')
 		}
+		if len(regs) > 0 && len(text) <= 4 {
+			// unusual mask runes on the short texts: NUL, and values that are not code points (written
+			// as U+FFFD by every encoder): total, rune count preserved, uncovered runes unchanged
+			masks = append(masks, 0, utf8.RuneError, -1, 0xD800, 0x110000)
+		}
 		for _, mask = range masks {
 			if triex.Try(callMask) {
 				sh.Col.Report("ReplaceWithMask|panic|"+validClass(o, t), v.Size(text), func() (string, any, string) {
@@ -338,10 +343,14 @@ func visit(sh *triex.Shard, v *triex.Visit) {
 				continue
 			}
 			w := ""
+			em := mask
+			if !utf8.ValidRune(em) {
+				em = utf8.RuneError // what a rune that is not a code point is written as
+			}
 			if t.Valid {
-				w = masked(text, cov, mask, regs)
+				w = masked(text, cov, em, regs)
 			} else {
-				w = maskedBytes(text, mask, regs)
+				w = maskedBytes(text, em, regs)
 			}
 			// text that is not valid UTF-8 is compared rune by rune (an invalid byte counts as one rune,
 			// U+FFFD): "every other rune is unchanged" does not say which bytes spell it
